@@ -19,7 +19,7 @@ Definition nonneg_pd (t : pd) : bool := forallb (fun kv => Qle_bool 0 (snd kv)) 
 Definition support_in (alph : list (list nat)) (t : pd) : bool :=
   forallb (fun kv => Qle_bool (snd kv) 0 || mem_cart (fst kv) alph) t.
 Definition pd_ok (alph : list (list nat)) (t : pd) : bool :=
-  nonneg_pd t && support_in alph t && qclose (1 # 1000000000) (mass t) 1.
+  nonneg_pd t && support_in alph t && qclose (1 # 10000000) (mass t) 1.     (* dit accepts masses within its own tolerance of one *)
 
 Definition entropy_data (t : pd) : rdata := RLin [(1, map snd t)].
 
